@@ -36,7 +36,7 @@ func (c07) Plan(tier string) wk.Plan {
 		n = 8_000_000
 	}
 	return wk.Plan{
-		Level: "exploration", Cases: n, Chunk: 500, Configs: single("seq", 16), CaseBudget: 20,
+		Level: "exploration", Cases: n, Chunk: 500, Configs: single("seq", 16), CaseBudget: 8,
 		Rule:        "case i exercises built-in number i mod N of the run-time documentation (N documented methods and functions): 60% a direct call with generated receiver (empty, singleton, duplicates, sorted, reversed, mixed int/float, nested, unicode strings), generated callbacks and numeric arguments incl. 0, negatives and values beyond the size; 20% a misuse derived from it (argument dropped/added/replaced by a wrong type, callback of wrong arity, wrong receiver); 20% a composition (the call embedded in a generated program of up to 4 built-ins); each on 3 argument tuples, optimizer on and off. Oracle: reference model; unordered/tie-aware comparison where the description promises no order. Non-trivial = the reference determines the outcome (not unspecified) and the call was executed; distinct by source. The evidence lists per built-in how often the model executed it successfully.",
 		Floor:       2000,
 		Assumptions: []string{"reference models are written from the method descriptions; open points are listed in DESIGN.md appendix A and counted as unspecified", "one CPU (sequential stages); parallel schedules are C06's subject"},
